@@ -793,7 +793,14 @@ func TestVerifME(t *testing.T) {
 		}
 		late := rng.Intn(3) == 0
 		n := 10 + rng.Intn(31)
-		h := meRunHistory(rng, cfg[0]*time.Millisecond, cfg[1]*time.Millisecond, n, late, idx, env.Prop)
+		// the time unit of the configuration: whole milliseconds, or (one history in
+		// five) 37 microseconds, so that timeouts and delays are not whole milliseconds
+		unit := time.Millisecond
+		if rng.Intn(5) == 0 {
+			unit = 37 * time.Microsecond
+			out.hit("C14.sub-millisecond-config")
+		}
+		h := meRunHistory(rng, cfg[0]*unit, cfg[1]*unit, n, late, idx, env.Prop)
 		out.Evaluations++
 		for k, v := range h.hits {
 			out.hitN(k, v)
